@@ -8,7 +8,7 @@ props="${@:-C01 C02 C03 C04 C05 C06 C07 C08 C09 C10 C11 C12 C13 C14 C15 C16 C17 
 export GOFLAGS=-mod=mod GOPROXY=off GOSUMDB=off GOTOOLCHAIN=local
 scratch=$(mktemp -d /tmp/trypatch.XXXXXX)
 trap 'rm -rf "$scratch"' EXIT
-rsync -a --exclude .git /repo/ "$scratch"/
+rsync -a --exclude .git "${VERIF_REPO_SRC:-/repo}"/ "$scratch"/
 ( cd "$scratch" && git apply "$patch" ) || { echo "patch does not apply" >&2; exit 2; }
 ( cd "$scratch"/v4 && go build ./... ) || { echo "does not compile"; exit 3; }
 run() {
